@@ -99,7 +99,10 @@ def run_rerender(ctx):
                  "2e-e\n", "1.5e\n", "3e-2e-1\n", "4e - 1\n", "x=1;2e-x;x e - 1\n", "12.5e3e\n", "1e1e1\n", "5 m2\n", "5m 2\n", "2x\n", "2 x\n", "x2\n", "ab\n", "a b\n"]
     programs += ["sq(x) =\nx^2\nsq(3)\n", "sq(x) =;x^2;sq(3)\n", "x =\n1\nx\n", "x =;1;x\n", "delete\nx\n", "f(\n1)\n", "1 +;2;", "x = 2;;x * 3\n", ";x = 5\nx\n", "x = 1\nx;;\n",
                  "clear\n;\nx\n", "[1,2\n]\n", "1 as\nkm\n", "f(a) = a;f(\n2)\n"]
-    programs += ["3!!", "x = 4\nx!!\n", "3!!!", "3! !", "(3!)!", "hh(x) = x!!\nhh(3)\n", "2^3!!", "3!!+1", "200*50%", "w = 3\nw*10%\nw+1\n", "1 +", "1 -", "1 *", "1 /", "1 ^", "1 %", "1 dot", "1 cross",
+    programs += ["g(x)=x*2;g(4)", "g (x)=x*2;g (4)", "5 m (2)", "5 m(2)", "t(3)", "t (3)", "2 km(1)", "2 km (1)", "m(1)", "in(2)", "st (3)", "B(1)+b (2)", "K(1)", "x = 3\nx(2)\nx (2)\n",
+                 "sin(0)", "sin (0)", "f(a)=a\nf(1)\nf (1)\n", "f(a) =a;f( 1 )", "2(3)", "2 (3)", "(1)(2)", "(1) (2)", "[1](2)", "[1] (2)",
+                 "x=3\nx*2", "x=3 \nx*2", "x=3\t\nx*2", "1/0 \n2+", "x = 1 \n\n \nx\n", "a=1 ;b=2 ;a+b", "a=1 \n", " \n \n1\n", "1 \r\n2 \r\n",
+                 "3!!", "x = 4\nx!!\n", "3!!!", "3! !", "(3!)!", "hh(x) = x!!\nhh(3)\n", "2^3!!", "3!!+1", "200*50%", "w = 3\nw*10%\nw+1\n", "1 +", "1 -", "1 *", "1 /", "1 ^", "1 %", "1 dot", "1 cross",
                  "1 as", "-", "√", "5 !", "x = 3 %\nx\n", "2 %;3", "2 %\n3", "- -1", "--1", "1--1", "1 - -1", "2 ^-1", "2^ -1", "a=1;b=2;a--b", "||", "|1|2|3|", "| 1 | 2 | 3 |"]
     programs += ["2 i", "a + 2 i", "f(3 i)", "2 x", "3 pi", "2 (3)", "5 km m", "2 e", "2 e3", "2 e 3", "2 e - 3", "1.5 e2", "2 .5", "2. 5", "1 . 5", "2 in", "2 inch", "12 i n", "0 b", "0 b1",
                  "x = 2 i\nx\n", "1 2 3", "a b", "sin 0", "2 sin(0)", "10 e", "10 e-", "1 e²"]
